@@ -27,6 +27,18 @@ func Root() string {
 	return "/verif"
 }
 
+// SourceRoot is the directory of the harness Go module (where go.mod lives). It differs from Root only
+// when VERIF_ROOT redirects evidence and replays to a scratch directory (seed trials).
+func SourceRoot() string {
+	if r := os.Getenv("VERIF_SRC"); r != "" {
+		return r
+	}
+	if _, err := os.Stat(filepath.Join(Root(), "go.mod")); err == nil {
+		return Root()
+	}
+	return "/verif"
+}
+
 // Violation is one failed oracle on one explored case.
 type Violation struct {
 	Signature string `json:"signature"`
